@@ -245,7 +245,7 @@ func vocabulary() []string {
 }
 
 var optValues = []string{"", "0", "1", "10", "-1", "50%", "100%", "101%", "~10", "~50%", "abc", "..", "1,2", "2..", "-1..", "0", "a,b", "ctrl-a", "ctrl-a:up", "ctrl-a:execute(ls)+down",
-	"right:50%:wrap", "up,30%,border-left", "hidden", "rounded", "none", "fg:1,bg:-1,hl:#ff0000", "dark", "16", "bw", "file,dir,follow,hidden", "length,index", "end,chunk", "default", "path", "history",
+	"right:50%:wrap", "up,30%,border-left", "hidden", "rounded", "none", "fg:1,bg:-1,hl:#ff0000", "dark", "16", "bw", "16,fg:1,bg:4", "dark,fg:2,hl:3", "light,bg:5,pointer:6:bold", "bw,fg:7", "file,dir,follow,hidden", "length,index", "end,chunk", "default", "path", "history",
 	"v1", "v2", "reverse", "reverse-list", "inline", "inline-right", "hidden", "\t", "\\t", "[,;]+", "(", "é", "漢字", "> ", "  ", "\x1b[31m", strings.Repeat("x", 300), "1:2:3", "99999999999999999999", "3.5",
 	"top", "center,50%", "localhost:0", "0.0.0.0:1234", "/nonexistent/dir", ".", "full", "minimal", "a:b:c", "::", ",", "+", "-", "--", "--x", "{}", "{1} {2}", "echo {}", "load:pos(3)", "result:transform-query:echo x",
 	"change:reload:cat /dev/null", "⣿", "🙂", "\xff\xfe"}
@@ -278,6 +278,109 @@ func nonFuncFieldsEqual(a0, b0 *Options) string {
 		}
 	}
 	return ""
+}
+
+// deepString prints a value following pointers (funcs and channels only as
+// set/unset), so that two snapshots can be compared even when the values share
+// pointers to package-level data.
+func deepString(sb *strings.Builder, v reflect.Value, depth int) {
+	if depth > 12 {
+		sb.WriteString("...")
+		return
+	}
+	switch v.Kind() {
+	case reflect.Ptr, reflect.Interface:
+		if v.IsNil() {
+			sb.WriteString("nil")
+			return
+		}
+		sb.WriteString("&")
+		deepString(sb, v.Elem(), depth+1)
+	case reflect.Func, reflect.Chan:
+		fmt.Fprintf(sb, "fn(%v)", !v.IsNil())
+	case reflect.Struct:
+		sb.WriteString("{")
+		for i := 0; i < v.NumField(); i++ {
+			sb.WriteString(v.Type().Field(i).Name + ":")
+			deepString(sb, v.Field(i), depth+1)
+			sb.WriteString(" ")
+		}
+		sb.WriteString("}")
+	case reflect.Slice, reflect.Array:
+		sb.WriteString("[")
+		for i := 0; i < v.Len(); i++ {
+			deepString(sb, v.Index(i), depth+1)
+			sb.WriteString(" ")
+		}
+		sb.WriteString("]")
+	case reflect.Map:
+		var parts []string
+		for _, k := range v.MapKeys() {
+			var ks, vs strings.Builder
+			deepString(&ks, k, depth+1)
+			deepString(&vs, v.MapIndex(k), depth+1)
+			parts = append(parts, ks.String()+"="+vs.String())
+		}
+		sort.Strings(parts)
+		sb.WriteString("map[" + strings.Join(parts, " ") + "]")
+	case reflect.String:
+		fmt.Fprintf(sb, "%q", v.String())
+	case reflect.Bool:
+		fmt.Fprintf(sb, "%v", v.Bool())
+	case reflect.Int, reflect.Int8, reflect.Int16, reflect.Int32, reflect.Int64:
+		fmt.Fprintf(sb, "%d", v.Int())
+	case reflect.Uint, reflect.Uint8, reflect.Uint16, reflect.Uint32, reflect.Uint64, reflect.Uintptr:
+		fmt.Fprintf(sb, "%d", v.Uint())
+	case reflect.Float32, reflect.Float64:
+		fmt.Fprintf(sb, "%g", v.Float())
+	default:
+		fmt.Fprintf(sb, "<%s>", v.Kind())
+	}
+}
+
+// Parsing must not leave anything behind: a fixed set of probe command lines
+// has to parse to the same configuration at any time in the life of the
+// process as it did before the first generated command line was parsed.
+var c17Probes = [][]string{{}, {"--color=16"}, {"--color=dark"}, {"--color=light"}, {"--color=bw"}, {"--color=16", "--no-bold"}, {"--style=full"}, {"--style=minimal"}, {"--style=default"},
+	{"--border"}, {"--preview", "x"}, {"--bind", "ctrl-a:up"}, {"--height=50%"}, {"--tmux"}, {"--walker=file"}, {"--scheme=path"}, {"--info=inline"}}
+var c17ProbeBaseline []string
+
+func c17ProbeStrings() []string {
+	out := make([]string, len(c17Probes))
+	for i, argv := range c17Probes {
+		opts, err, pv := safeParse(false, argv)
+		var sb strings.Builder
+		fmt.Fprintf(&sb, "err=%v panic=%v ", err, pv)
+		if opts != nil {
+			deepString(&sb, reflect.ValueOf(*opts), 0)
+		}
+		out[i] = sb.String()
+	}
+	return out
+}
+
+// c17CheckNoResidue is called at the start (baseline) and at the end of every
+// generated case.
+func c17CheckNoResidue(t *rapid.T, after string) {
+	if c17ProbeBaseline == nil {
+		c17ProbeBaseline = c17ProbeStrings()
+		return
+	}
+	now := c17ProbeStrings()
+	for i := range now {
+		if now[i] != c17ProbeBaseline[i] {
+			a, b := c17ProbeBaseline[i], now[i]
+			k := 0
+			for k < len(a) && k < len(b) && a[k] == b[k] {
+				k++
+			}
+			lo := k - 80
+			if lo < 0 {
+				lo = 0
+			}
+			t.Fatalf("after parsing %s the command line %q parses differently than at the start of the process (state left behind by an earlier parse):\n  before: ...%.200s\n  now:    ...%.200s", after, c17Probes[i], a[lo:], b[lo:])
+		}
+	}
 }
 
 func safeParse(useDefaults bool, args []string) (opts *Options, err error, pv interface{}) {
@@ -314,7 +417,11 @@ func genArgv(t *rapid.T, max int) []string {
 func propC17Totality(t *rapid.T) {
 	os.Unsetenv("FZF_DEFAULT_OPTS")
 	os.Unsetenv("FZF_DEFAULT_OPTS_FILE")
+	if c17ProbeBaseline == nil {
+		c17CheckNoResidue(t, "")
+	}
 	args := genArgv(t, 6)
+	probe := rapid.IntRange(0, 7).Draw(t, "probe") == 0
 	opts, err, pv := safeParse(false, args)
 	vstat.Case("C17/totality", fmt.Sprintf("%q", args), len(args) >= 2, fmt.Sprintf("accepted=%v", err == nil))
 	if pv != nil {
@@ -335,6 +442,9 @@ func propC17Totality(t *rapid.T) {
 		if d := nonFuncFieldsEqual(opts, opts2); d != "" {
 			t.Fatalf("ParseOptions(%q) gives different options the second time: %s", args, d)
 		}
+	}
+	if probe {
+		c17CheckNoResidue(t, fmt.Sprintf("%q", args))
 	}
 }
 
